@@ -1,4 +1,5 @@
-import Ark.Generated.Facts
+import Ark.Generated.FactsWiring
+import Ark.Generated.FactsTemplates
 
 namespace Ark.Props.C14
 open Ark
